@@ -101,7 +101,7 @@ def gen_program(rng, small):
     else:
         emp = ["E", "E", "I", "T"]
     threads = []
-    budget = 5 if small else 100
+    budget = 4 if small else 100
     for t in range(nt):
         n = 1 + rng.below(2 if small else 5)
         ops = []
@@ -165,7 +165,7 @@ def main(argv):
         for i, p in enumerate(DIRECTED):
             progs.append(("d%d" % i, p, True))
         seen = set()
-        n_small, n_big = (70, 60) if not thorough else (300, 400)
+        n_small, n_big = (50, 60) if not thorough else (300, 400)
         for small, n in ((True, n_small), (False, n_big)):
             tries = 0
             cnt = 0
@@ -179,7 +179,8 @@ def main(argv):
                 progs.append(("%s%d" % ("s" if small else "b", cnt), p, small))
                 cnt += 1
         nsched = 24 if not thorough else 150
-        scheds = [(rng.below(1 << 31), [0, 3, 1, 0][i % 4], "-") for i in range(nsched)]
+        # no PCT: do_emplace busy-waits on a BUSY byte (sched_yield loop), which needs a fair scheduler
+        scheds = [(rng.below(1 << 31), [0, 3][i % 2], "-") for i in range(nsched)]
     lines = []
     meta = {}
     for pid, p, small in progs:
@@ -252,7 +253,7 @@ def main(argv):
                        "(wrap-around through the mirror bytes); prefill brings the table(s) to 0, full-2, full-1, full or "
                        "two-tables-full so that the threads race for the last slots, fail on a full fixed table or race on "
                        "the next-pointer CAS (default-constructed head included); strategies: uniform random, round-robin "
-                       "with random pre-emptions, PCT depth 3; distinct non-trivial = distinct (program, observed outcome) "
+                       "with random pre-emptions (no PCT: the BUSY spin-wait needs a fair scheduler); distinct non-trivial = distinct (program, observed outcome) "
                        "pairs; small programs are explored exhaustively in the extracted model and every implementation "
                        "outcome must be in the model's outcome set")
     ids = list(impl_out)
